@@ -275,6 +275,16 @@ def explore(fn, max_runs=6, policy="first", seed=0, only=None, raw=False):
             out = fn() if raw else observe(fn)
         runs += 1
         trace = list(r.trace)
+        # the script repeats the decisions of an earlier run of the same request up to its last entry, so this run must meet
+        # the same choice points again (same number of alternatives) and take the scripted decisions; if it does not, the
+        # request behaved differently the second time it was made in this process (e.g. a random decision remembered
+        # instead of being drawn again)
+        r.divergence = None
+        if runs > 1:
+            taken = [d for d, _ in trace][:len(script)]
+            if taken != list(script) or [n for _, n in trace][:len(script) - 1] != prev_factors[:len(script) - 1]:
+                r.divergence = {"scripted": list(script), "taken": [d for d, _ in trace], "earlier_alternatives": prev_factors[:len(script)]}
+        prev_factors = [n for _, n in trace]
         nxt = list(trace)
         while nxt and nxt[-1][0] + 1 >= nxt[-1][1]:
             nxt.pop()
